@@ -18,6 +18,15 @@ def leaf(x: int) -> tuple:
     return ('r', x)
 
 
+def slow_leaf(x: int) -> tuple:
+    """A leaf whose single step takes a while (three yield points inside one synchronous step)."""
+    busy('slow-leaf-mid-step')
+    LOG.append(('leaf', x))
+    busy('slow-leaf-mid-step')
+    busy('slow-leaf-mid-step')
+    return ('r', x)
+
+
 def boom(x: int) -> tuple:
     LOG.append(('boom', x))
     if x == 2:
@@ -64,10 +73,16 @@ def busy(label: str = 'task-busy') -> None:
         s = WORLD[0].sched
         import threading
         if s.current is not None and threading.current_thread() is s.current.thread:
+            me = s.current
             s.park(lambda: True, label)
+            # C14: a worker that has processed SHUTDOWN (or lost its boss) kills itself; its task code never resumes.
+            # If this body resumes although the worker's incoming thread has ended, the worker outlived its shutdown.
+            for t in s.threads:
+                if t.node is me.node and t is not me and t.name.endswith('.in') and t.done:
+                    LOG.append(('ran-after-shutdown', label))
 
 
-SHAPES = ['two_seq', 'submit', 'map2', 'map3', 'next3', 'nested', 'nested_map', 'two_rev', 'cancel_map', 'cancel_after_next',
+SHAPES = ['two_seq', 'submit', 'map2', 'map2_slow', 'map3', 'next3', 'nested', 'nested_map', 'two_rev', 'cancel_map', 'cancel_after_next',
           'cancel_nested', 'raise_leaf', 'raise_nested', 'await_cancelled']
 
 
@@ -83,6 +98,8 @@ class TreePass(BasePass):
             out: Any = await r.submit(leaf, 1)
         elif s == 'map2':
             out = tuple(await r.map(leaf, [1, 2]))
+        elif s == 'map2_slow':
+            out = tuple(await r.map(slow_leaf, [1, 2]))
         elif s == 'map3':
             out = tuple(await r.map(leaf, [1, 2, 3]))
         elif s == 'next3':
@@ -168,6 +185,7 @@ class TreePass(BasePass):
 EXPECT = {
     'submit': ('r', 1),
     'map2': (('r', 1), ('r', 2)),
+    'map2_slow': (('r', 1), ('r', 2)),
     'map3': (('r', 1), ('r', 2), ('r', 3)),
     'next3': ('next', ((0, ('r', 1)), (1, ('r', 2)), (2, ('r', 3))), 3),
     'next_mix': ('mix', ((0, ('r', 1)), (1, ('r', 2)), (2, ('r', 3))), ('r', 9)),
@@ -184,7 +202,7 @@ EXPECT = {
 }
 # bodies that must run exactly once (tags) when nothing is cancelled / raised
 ONCE = {
-    'submit': [('leaf', 1)], 'map2': [('leaf', 1), ('leaf', 2)], 'map3': [('leaf', 1), ('leaf', 2), ('leaf', 3)],
+    'submit': [('leaf', 1)], 'map2': [('leaf', 1), ('leaf', 2)], 'map2_slow': [('leaf', 1), ('leaf', 2)], 'map3': [('leaf', 1), ('leaf', 2), ('leaf', 3)],
     'next3': [('leaf', 1), ('leaf', 2), ('leaf', 3)],
     'next_mix': [('leaf', 1), ('leaf', 2), ('leaf', 3), ('leaf', 9)],
     'nested': [('parent', 1), ('parent', 2), ('leaf', 10), ('leaf', 20)],
